@@ -6,12 +6,15 @@
    canonical encoding at an offset aligned for the type — with arbitrary bytes before and after —, the swap rewrites
    exactly the message into its native-endian canonical encoding, leaves all other bytes as they were and returns
    the offset one past the (aligned) end of the message.
-   Not proved: the clause about messages with a greedy tail (only members before the unlimited member are swapped);
-   the check leaves unlimited roots out as well. [C09_kfc_witness] shows that the hypothesis [kfc_free] cannot be
+   For a root struct with a greedy tail (C09_swap_greedy_tail): exactly the bytes in front of the unlimited last member
+   (spec: SwapSpec.conv_segs, ending at Wire.last_member_offset) are converted, every later byte of the buffer —
+   the unlimited member included — stays, and the returned offset is that member's offset rounded up to the struct's
+   alignment; it is the member's address only when that offset is a multiple of the alignment, which is the known
+   finding KF-G (C09_greedy_return_witness). [C09_kfc_witness] shows that the hypothesis [kfc_free] cannot be
    dropped: on the schema of KF-C the model — like the compiled code — returns a wrong end. *)
 From Coq Require Import ZArith List Bool Lia.
-From Prophy Require Import Bytes Schema Layout Wire Src PyDecode PcModel CppFull CppSwap
-  Arith SpecAlign Views SpecLen WireFacts CppSwapFacts.
+From Prophy Require Import Bytes Schema Layout Wire SwapSpec Src PyDecode PcModel CppFull CppSwap
+  Arith SpecAlign Views SpecLen WireFacts BytesFacts CppSwapFacts.
 Import ListNotations.
 Local Open Scope Z_scope.
 
@@ -41,6 +44,23 @@ Proof.
 Qed.
 Print Assumptions C09_swap_message.
 
+(* any root struct, in particular one with a greedy tail: the first k bytes of the message — the segments in front
+   of an unlimited last member, or the whole message when there is none — are converted, the rest of the buffer is
+   left as it was *)
+Theorem C09_swap_greedy_tail :
+  forall e fs vs pre post,
+    let t := TStruct fs in let v := VStruct vs in
+    legal t = true -> kfc_free t = true -> wt t v = true -> len pre mod align t = 0 ->
+    let k := segslen (conv_segs t v (len pre)) in
+    cpp_swap e t (pre ++ wire (flip e) t v ++ post) (len pre)
+    = Some (pre ++ firstn (Z.to_nat k) (wire e t v) ++ skipn (Z.to_nat k) (wire (flip e) t v) ++ post,
+            swap_ret (align t) fs vs false (len pre)) /\
+    (stiffness t = Unlimited ->
+       k = last_member_offset fs vs false (len pre) - len pre /\
+       swap_ret (align t) fs vs false (len pre) = cpp_align_up (align t) (last_member_offset fs vs false (len pre))).
+Proof. exact cpp_swap_prefix. Qed.
+Print Assumptions C09_swap_greedy_tail.
+
 (* the hypothesis kfc_free is needed: the schema of the known finding KF-C, on which the model (as the compiled code)
    returns offset 32 for a 24-byte message *)
 Definition kfc_schema : ty :=
@@ -59,6 +79,18 @@ Proof.
   eexists. vm_compute. reflexivity.
 Qed.
 Print Assumptions C09_kfc_witness.
+
+(* the known finding KF-G: the returned offset is the unlimited member's offset rounded up to the struct alignment;
+   struct G { u64 a; u8 b; u8 g<...>; }: g is at offset 9, the model (as the compiled code) returns 16 *)
+Theorem C09_greedy_return_witness :
+  let t := TStruct [(FPlain, TScalar U64); (FPlain, TScalar U8); (FGreedy, TScalar U8)] in
+  let vs := [VInt 1; VInt 2; VList [VInt 3; VInt 4; VInt 5]] in
+  legal t = true /\ wt t (VStruct vs) = true /\ kfc_free t = true /\ stiffness t = Unlimited /\
+  last_member_offset [(FPlain, TScalar U64); (FPlain, TScalar U8); (FGreedy, TScalar U8)] vs false 0 = 9 /\
+  cpp_swap LE t (wire BE t (VStruct vs) ++ [165; 165]) 0
+  = Some ([1; 0; 0; 0; 0; 0; 0; 0; 2; 3; 4; 5; 0; 0; 0; 0; 165; 165], 16).
+Proof. repeat split; vm_compute; reflexivity. Qed.
+Print Assumptions C09_greedy_return_witness.
 
 (* non-vacuity: a struct with three parts, an optional and a union that meets every hypothesis *)
 Example C09_example :
